@@ -141,6 +141,11 @@ func (pc *PacketConn) StartUnreachable() {
 	pc.context, pc.cancel = context.WithCancel(pc.s.Context())
 	pc.unreachableSubs = utils.NewBroker(pc.context, reflect.TypeOf(UnreachableNotification{}))
 	iChan := pc.s.GetUnreachableBroker().Subscribe()
+	if iChan == nil {
+		// The node is shutting down: there is nothing to monitor, and ranging over a nil
+		// channel would block the forwarding goroutine for ever.
+		return
+	}
 	go func() {
 		<-pc.context.Done()
 		pc.s.GetUnreachableBroker().Unsubscribe(iChan)
